@@ -15,6 +15,8 @@ import (
 	"fmt"
 	"math/big"
 	mrand "math/rand"
+	"runtime"
+	"strings"
 	"time"
 
 	"gitlab.com/aquachain/aquachain/aqua/accounts"
@@ -197,9 +199,25 @@ func runMiner(c *fw.Ctx) {
 				break loop
 			}
 		}
+		// Stop order matters to the harness, not to the property: Miner.Stop clears
+		// the worker's mining flag, after which its update loop applies every still
+		// buffered TxPreEvent to the current work's state while wait() may be
+		// committing that same state for a late seal result (unsynchronised in
+		// opt/miner/worker.go: "concurrent map writes" kills the process; seen once
+		// in a fresh-sandbox run, 3 of ~500 runs of this leg). The pool goes first -
+		// its closing subscription ends the update loop while the flag still makes
+		// it ignore transactions - and the miner is stopped once that loop is gone.
+		updLoops := strings.Count(allStacks(), "opt/miner.(*worker).update(")
+		pool.Stop()
+		for i := 0; updLoops > 0 && i < 20000; i++ {
+			if strings.Count(allStacks(), "opt/miner.(*worker).update(") < updLoops {
+				c.Count("miner_update_loop_seen_exiting_before_stop")
+				break
+			}
+			time.Sleep(time.Millisecond)
+		}
 		m.Stop()
 		sub.Unsubscribe()
-		pool.Stop()
 		if len(mined) == 0 {
 			bc.Stop()
 			return
@@ -482,4 +500,15 @@ func runLateStart(c *fw.Ctx) {
 
 func loggerCallData() []byte {
 	return gen.Cat(gen.WordU(2), gen.LogTopic(1).Bytes(), gen.LogTopic(2).Bytes(), gen.LogTopic(3).Bytes(), gen.LogTopic(0).Bytes(), []byte("c01"))
+}
+
+func allStacks() string {
+	buf := make([]byte, 1<<20)
+	for {
+		n := runtime.Stack(buf, true)
+		if n < len(buf) {
+			return string(buf[:n])
+		}
+		buf = make([]byte, 2*len(buf))
+	}
 }
